@@ -66,6 +66,7 @@ func (conn *Conn) close() {
 	for _, fid := range conn.fidpool {
 		fids = append(fids, fid)
 	}
+	verifPoint("close.snapshot", conn, uint32(len(fids)), 0)
 	conn.Unlock()
 	for _, fid := range fids {
 		fid.unlink()
